@@ -46,6 +46,18 @@ var c13Pool = []vfIP{
 	{Class: "gua64-b-tentative-lowest", Addr: "2001:db8:2::/64", Flags: "N"},
 }
 
+var c13OrderPool = []vfIP{
+	{Class: "h2", Addr: "2001:db8:2::1/64"},
+	{Class: "ha", Addr: "2001:db8:a::1/64"},
+	{Class: "h10", Addr: "2001:db8:10::1/64"},
+	{Class: "h100", Addr: "2001:db8:100::1/64"},
+	{Class: "h0-1", Addr: "2001:db8:0:1::1/64"},
+	{Class: "db80", Addr: "2001:db80::1/64"},
+	{Class: "low", Addr: "::1:0:0:0:1/64"},
+	{Class: "ula-ff", Addr: "fd00:0:0:ff::1/64"},
+	{Class: "ula-100", Addr: "fd00:0:0:100::1/64"},
+}
+
 type c13Stanza struct {
 	OnLink, Autonomous bool
 	Valid, Preferred   time.Duration
@@ -263,7 +275,7 @@ func c13Nontrivial(c c13Case) bool {
 func TestVerifC13(t *testing.T) {
 	r := ev.Begin("C13", "enum")
 	defer r.End(t)
-	r.Rule = "address lists = all subsets (size<=K) of a 13-address pool (GUA/ULA/link-local/IPv4, /48 /64 /128, every exclusion flag, several hosts per /64), each in all permutations, plus each list with one element duplicated, x 3 stanza variants, + failing source + source failing transiently (EINTR/EAGAIN, bare and wrapped) 1..5 times in a row before answering; non-trivial = >=1 eligible address and (an excluded address, a shared /64 or >=2 distinct /64s); distinct = distinct ordered list x stanza"
+	r.Rule = "address lists = all subsets (size<=K) of a 13-address pool (GUA/ULA/link-local/IPv4, /48 /64 /128, every exclusion flag, several hosts per /64), each in all permutations, plus each list with one element duplicated, x 3 stanza variants, + all subsets (size<=4) in all permutations of a 9-address pool of eligible /64s whose textual and numeric orders differ + failing source + source failing transiently (EINTR/EAGAIN, bare and wrapped) 1..5 times in a row before answering; non-trivial = >=1 eligible address and (an excluded address, a shared /64 or >=2 distinct /64s); distinct = distinct ordered list x stanza"
 	r.Assumptions = []string{"address source replaced by an injected function (Prefix.Addrs); rtnetlink decoding not covered"}
 
 	if r.Replay != nil {
@@ -312,6 +324,27 @@ func TestVerifC13(t *testing.T) {
 				enum.Permutations(withDup, eq, func(p []vfIP) bool { one(p); return true })
 			}
 		}
+		return true
+	})
+	// Ordering pool: eligible /64s only, whose textual forms (hextets of 1-4 hex digits,
+	// "::" compression at different places, letters vs digits) order differently from
+	// their numeric values; all subsets of <=4 in all permutations.
+	enum.Subsets(len(c13OrderPool), 4, func(ix []int) bool {
+		base := make([]vfIP, 0, len(ix))
+		for _, i := range ix {
+			base = append(base, c13OrderPool[i])
+		}
+		enum.Permutations(base, eq, func(p []vfIP) bool {
+			idx++
+			if r.Mine(idx) {
+				c := c13Case{Addrs: append([]vfIP(nil), p...), Stanza: 0}
+				r.Case(ev.JSON(c), len(p) >= 2)
+				for _, v := range c13Check(c) {
+					r.Violation(v[0], v[1], c)
+				}
+			}
+			return true
+		})
 		return true
 	})
 	// A source that fails transiently 1..5 times in a row, then answers: the build either
